@@ -9,4 +9,8 @@ CHECKS = {
    technique="exhaustive enumeration of the (axis, N, min, spacing, fd_order) lattice against closed-form expectations",
    text="Every grid of the lattice N in 1..40,64,100,128 x 7 minima x 8 spacings (incl. 0.1, 0.3, 1/3) x axis is constructed and every attribute compared with its closed form; consumers mixing fd.N* and param['N*'] are executed on the small grids; trimming helpers on 1/2/3-D arrays for every order.",
    note="Bounded to the lattice; coordinates compared up to 1e-12*max|coord| + 1e-9*spacing; excision helpers only checked for not touching their argument and keeping non-excised values."),
+ "C13": dict(engine="E1-explorer", level="model_checking", design_ref="5 C13",
+   technique="explicit-state BFS over sequences of real save_data calls (state = content of the it_*.hdf5 files), every probe read and every file compared with a dict reference store after each transition",
+   text="All save sequences to depth 2 over a 96-operation alphabet (4 data dictionaries incl. unsorted iterations, ragged None, None column x 4 iteration selections x 3 variable selections x 2 levels) and depth 3 on reduced alphabets, for three path styles; after every transition 48 probe reads and every dataset on disk are compared with the reference model and the caller's arguments are digested.",
+   note="Reference semantics: lookup by iteration value, None skipped, later saves overwrite. Iterations absent from data['it'] are outside the statement. Bounded depth 2-3."),
 }
